@@ -42,6 +42,42 @@ class Tok(HTMLParser):
         self.ev.append(("decl", decl))
 
 
+STRUCT_DOCS = set()
+
+
+class StructTok(HTMLParser):
+    """projection of html.parser's events onto the event alphabet of Proofs/HtmlTokProofs.v"""
+    def __init__(self):
+        super().__init__(convert_charrefs=True)
+        self.out = []
+
+    @staticmethod
+    def name(n):
+        return "".join("n%02x" % b for b in n.encode("utf-8"))
+
+    def handle_starttag(self, tag, attrs):
+        self.out.append("o" + self.name(tag) + "".join("a" + self.name(k) for k, _ in attrs) + "t")
+
+    def handle_startendtag(self, tag, attrs):
+        self.handle_starttag(tag, attrs)
+
+    def handle_endtag(self, tag):
+        self.out.append("c" + self.name(tag) + "t")
+
+
+def py_structure(text):
+    low = text.lower()
+    if "<!" in low or "<?" in low or "<script" in low or "<style" in low or "<textarea" in low or "<title" in low or "\ufffd" in text:
+        return None
+    t = StructTok()
+    try:
+        t.feed(text)
+        t.close()
+    except Exception:
+        return None
+    return "".join(t.out)
+
+
 def events(html_text):
     t = Tok()
     t.feed(html_text)
@@ -175,6 +211,8 @@ def run(chk):
                 dyn = bool(kinds & {"script", "uscript", "utext", "attr:dyn", "class_attr:dyn", "@attributes", "objref", "inline:script", "inline:uscript"}) or "#{" in gen_tmpl.print_file(r.file)
                 chk.case(gen_tmpl.print_file(r.file) + r.tname + repr(r.env), nontrivial=dyn)
                 chk.count(half)
+                if r.status == "ok" and len(STRUCT_DOCS) < 60000:
+                    STRUCT_DOCS.add(r.got)
                 why = None
                 if not (r.status == "ok" and r.got == r.ideal):
                     if lrender.lookalike_known(chk, r) or lrender.attrs_blank_known(chk, r):
@@ -200,6 +238,30 @@ def run(chk):
                 r = recs[-1]
                 chk.samples.append({"template": gen_tmpl.print_file(r.file)[:400], "env": r.env, "rendered": r.got.decode("utf-8", "replace")[:300]})
             lrender.compile_correspondence(chk, files, ("cls", "perr", "gtext"))
+        # S-HTMLTOK: the tokenizer of Proofs/HtmlTokProofs.v is a reading of "document structure", not a model of goht code; it is
+        # validated here against an independent HTML tokenizer (Python html.parser) on the documents the real pipeline rendered.
+        # A disagreement says nothing about goht: it is counted and announced, never reported as a violation.
+        if br.go_ok and br.coq_ok and STRUCT_DOCS:
+            docs = sorted(STRUCT_DOCS)[:3000 if quick else 40000]
+            res = common.run_lines_parallel(common.DRIVER, ["htmlstruct " + common.hx(d) for d in docs])
+            differ = 0
+            for d, m in zip(docs, res):
+                want = py_structure(d.decode("utf-8", "replace"))
+                f = m.split(" ")
+                got = (f[1].lower() if len(f) == 3 else "") if m.startswith("ok") else m
+                if m.startswith("ok") and f[-1] != "D":
+                    want = None        # the document ends inside a tag (an unescaped value opened one): html.parser then reports text
+                if want is None:
+                    chk.count("htmltok-spec:not-comparable")
+                elif got.strip() == want:
+                    chk.count("htmltok-spec:agrees-with-html.parser")
+                else:
+                    differ += 1
+                    chk.count("htmltok-spec:differs-from-html.parser")
+                    if differ <= 2:
+                        note = "S-HTMLTOK: tokenizer specification and html.parser differ on %r: %s vs %s" % (d[:120], got.strip()[:80], want[:80])
+                        chk.notes.append(note)
+                        print("NOTE: " + note)
         # model and implementation of html.EscapeString on the adversarial strings
         lines = ["escape " + common.hx(s) for s in ADV]
         for s, a, m in zip(ADV, common.run_lines(common.IMPLRUN, lines), common.run_lines(common.DRIVER, lines)):
